@@ -33,6 +33,8 @@ WdClauses(s, o) ==
         /\ o.runs[k].ntargets = Len(s.targets)
         /\ o.runs[k].dep_seen,
     C19_state_dir |-> \A k \in DOMAIN o.runs : o.runs[k].gwfdir_ok,
+    (* Workflow.glob / iglob / shell work in the workflow's working directory, whatever the invoking directory *)
+    C19_helpers_in_wfdir |-> \A k \in DOMAIN o.runs : o.runs[k].helpers_at = s.wfdir,
     C19_effwd |-> \A k \in DOMAIN s.targets : s.targets[k].loc = EffWd(s.targets[k].explicit, s.wfdir) ]
 
 NameClauses(s, o) == [ C19_name_accept |-> o.accepted <=> ValidName(s.classes) ]
